@@ -296,7 +296,7 @@ package martian
 //@   at call 0 of handleConnectRequest$1 before assert[client-to-target-copy-reads-through-the-buffered-reader] arg1 == iface(brw) && arg0 == iface(cbw)
 //@   at call 1 of handleConnectRequest$1 before assert[target-to-client-copy-writes-through-the-buffered-writer] arg0 == iface(brw) && arg1 == iface(cbr)
 //@   at call 0 of handleConnectRequest$1 before assert[tunnel-starts-after-the-200-was-flushed] nWrite == old(nWrite) + 1 && brw.Writer.gFlushed >= old(brw.Writer.gFlushed) + 1
-//@   at call 0 of handle before assert[hijacker-gets-the-decrypted-connection] session.conn == conn && session.brw == brw
+//@   at call 0 of handle before assert[hijacker-gets-the-decrypted-connection] session.conn == arg1 && session.brw == arg2
 //@   at call 0 of handle before assert[tunnel-shares-the-connect-session] ctx.session == session
 //@   at call 1 of handle before assert[tunnel-shares-the-connect-session] ctx.session == session
 
